@@ -193,9 +193,36 @@ func (rt *realtime) judgeStragglers(r *vrun.Run) {
 			latest = sg.launched
 		}
 	}
-	if w := hangBound - time.Since(latest); w > 0 {
-		time.Sleep(w)
+	// wait until every straggler has come back or the bound has elapsed (the clock only decides when to look)
+	back := make([]*snapshot, len(list))
+	for {
+		pending := 0
+		for i, sg := range list {
+			if back[i] != nil {
+				continue
+			}
+			select {
+			case s := <-sg.resCh:
+				back[i] = &s
+			default:
+				pending++
+			}
+		}
+		if pending == 0 || time.Since(latest) >= hangBound {
+			break
+		}
+		time.Sleep(20 * time.Millisecond)
 	}
+	var rest []*straggler
+	for i, sg := range list {
+		if back[i] != nil { // came back late: an ordinary case
+			r.Obs("realtime_late_returns", 1)
+			rt.judge(r, sg.sc, sg.st, *back[i], nil)
+			continue
+		}
+		rest = append(rest, sg)
+	}
+	list = rest
 	var dump map[int64]*gInfo
 	for _, sg := range list {
 		select {
